@@ -6,8 +6,7 @@ LayersAll == {<<"AHx", 0, -1>>, <<"A85", 0, -1>>, <<"RL", 0, -1>>, <<"CCF", 0, -
               <<"LZW", 0, -1>>, <<"LZW", 0, 0>>, <<"LZW", 0, 1>>, <<"LZW", 12, -1>>, <<"LZW", 12, 0>>, <<"LZW", 2, -1>>,
               <<"Fl", 0, -1>>, <<"Fl", 1, -1>>, <<"Fl", 2, -1>>, <<"Fl", 15, -1>>, <<"Fl", 10, -1>>}
 LayersCore == {<<"AHx", 0, -1>>, <<"A85", 0, -1>>, <<"RL", 0, -1>>, <<"CCF", 0, -1>>,
-               <<"LZW", 0, -1>>, <<"LZW", 0, 0>>, <<"LZW", 12, 0>>, <<"LZW", 12, -1>>,
-               <<"Fl", 0, -1>>, <<"Fl", 2, -1>>, <<"Fl", 15, -1>>}
+               <<"LZW", 0, -1>>, <<"LZW", 0, 0>>, <<"LZW", 12, 0>>, <<"Fl", 2, -1>>, <<"Fl", 15, -1>>}
 \* three stages: the kinds whose parameters can leak from one stage into another, around a parameterless one
 LayersLeak == {<<"AHx", 0, -1>>, <<"LZW", 0, -1>>, <<"LZW", 0, 0>>, <<"LZW", 12, 1>>, <<"Fl", 15, -1>>, <<"CCF", 0, -1>>}
 \* quick tier, three stages: [/LZW /AHx /LZW] and its relatives
